@@ -1,5 +1,7 @@
 package hx
 
+import "fmt"
+
 // The `nl` stream: single operations of the graph algebra, lookups and matching.
 
 func nlProps(op M) []string {
@@ -34,6 +36,78 @@ func nlGen(g *G, tier string) []M {
 	for _, op := range ops {
 		if g2.Chance(0.33) {
 			op["alloc"] = true
+		}
+	}
+	// some merges with two edges of one source whose types are different numbers without a name, and
+	// some intersections whose only common node refers to itself
+	for _, op := range ops {
+		switch asStr(op["op"]) {
+		case "intersect", "union", "add":
+		default:
+			continue
+		}
+		if !g2.Chance(0.05) {
+			continue
+		}
+		nd := func(id string) M { return M{"id": id, "type": 0.0, "a": M{}} }
+		if g2.Chance(0.5) {
+			e1 := M{"ty": 1001.0, "src": "a", "tos": []any{"b"}}
+			e2 := M{"ty": 1002.0, "src": "a", "tos": []any{"c"}}
+			e3 := M{"ty": 5.0, "src": "a", "tos": []any{"b"}}
+			nodes := func() []any { return []any{nd("a"), nd("b"), nd("c")} }
+			op["a"] = M{"nodes": nodes(), "edges": []any{e1, e3}, "roots": []any{"a"}}
+			op["b"] = M{"nodes": nodes(), "edges": []any{e2, e1}, "roots": []any{"a"}}
+			if g2.Chance(0.5) {
+				op["a"] = M{"nodes": nodes(), "edges": []any{e1, e2, e3}, "roots": []any{"a"}}
+			}
+		} else {
+			loop := M{"ty": 10.0, "src": "app", "tos": []any{"app"}}
+			op["a"] = M{"nodes": []any{nd("app"), nd("lib")}, "edges": []any{M{"ty": 5.0, "src": "app", "tos": []any{"lib"}}, loop, M{"ty": 5.0, "src": "lib", "tos": []any{"app"}}}, "roots": []any{"app"}}
+			op["b"] = M{"nodes": []any{nd("app"), nd("tool")}, "edges": []any{M{"ty": 5.0, "src": "app", "tos": []any{"tool"}}, loop}, "roots": []any{"app"}}
+			if g2.Chance(0.3) {
+				op["a"] = M{"nodes": []any{nd("app")}, "edges": []any{loop}, "roots": []any{"app"}}
+				op["b"] = Normalize(op["a"])
+			}
+		}
+	}
+	// some extractions from a list with two edges of one source whose types are different numbers
+	// without a name (in either order), and some lookups by software identifier on lists that hold
+	// the value under the type asked for, under the unknown type and under another type
+	for _, op := range ops {
+		switch asStr(op["op"]) {
+		case "nodeGraph", "nodeSiblings", "nodeDescendants":
+			if !g2.Chance(0.05) {
+				continue
+			}
+			nd := func(id string) M { return M{"id": id, "type": 0.0, "a": M{}} }
+			es := []any{M{"ty": 45.0 + float64(g2.Int(3)), "src": "a", "tos": []any{"b"}}, M{"ty": 1002.0, "src": "a", "tos": []any{"b", "c"}},
+				M{"ty": -1.0, "src": "a", "tos": []any{"c"}}, M{"ty": 5.0, "src": "b", "tos": []any{"c"}}}
+			g2.R.Shuffle(len(es), func(i, j int) { es[i], es[j] = es[j], es[i] })
+			op["a"] = M{"nodes": []any{nd("a"), nd("b"), nd("c")}, "edges": es[:2+g2.Int(3)], "roots": []any{"a"}}
+			op["id"] = "a"
+		case "byIdent":
+			v := asStr(op["v"])
+			if v == "" || !g2.Chance(0.6) {
+				continue
+			}
+			a, _ := op["a"].(M)
+			if a == nil {
+				continue
+			}
+			t := asInt(op["t"])
+			have := map[string]bool{}
+			for _, n := range asList(a["nodes"]) {
+				have[asStr(n.(M)["id"])] = true
+			}
+			nodes := asList(a["nodes"])
+			for k, typ := range []int64{t, 0, t%4 + 1, 4} {
+				id := fmt.Sprintf("held-%d", k)
+				if have[id] || !g2.Chance(0.75) {
+					continue
+				}
+				nodes = append(nodes, M{"id": id, "type": 0.0, "a": M{"Identifiers": []any{[]any{float64(typ), v}}}})
+			}
+			a["nodes"] = nodes
 		}
 	}
 	// some merges of lists whose (source, type) pairs read the same when written one after the other
@@ -168,6 +242,16 @@ func nlGen(g *G, tier string) []M {
 		op["a"] = M{"nodes": shuffleAny(g2, nodes), "edges": []any{}, "roots": []any{}}
 		op["n"] = node("probe", both, purl)
 		delete(op, "member")
+	}
+	// a fifth of the merges on operands in which persons with the same content are one object (a
+	// contact listed under two teams)
+	for _, op := range ops {
+		switch asStr(op["op"]) {
+		case "intersect", "union", "add":
+			if g2.Chance(0.2) {
+				op["intern"] = true
+			}
+		}
 	}
 	// a quarter of the matching operations with a probe that is an element of the list itself
 	for _, op := range ops {
